@@ -237,6 +237,8 @@ func (x *Exec) rangeNext(fr *Frame, st *State, t *ssa.Next) Val {
 	has := x.mapHas(st, it.mt, it.m, key)
 	x.assume(st, c.Implies(ok, has))
 	kval := x.keyVal(st, key, it.mt.Key())
+	// a key that is present in the map is a value of the key type (e.g. within 0..65535 for uint16)
+	x.assume(st, c.Implies(ok, x.typeInv(st, kval, it.mt.Key())))
 	got := x.mapGet(st, it.mt, it.m, key)
 	x.assume(st, c.Implies(ok, x.typeInv(st, got, it.mt.Elem())))
 	return VStruct{[]Val{VBool{ok}, kval, got}}
